@@ -100,25 +100,32 @@ var gcPoints = []string{"gc:start", "gc:before-newest-check", "gc:before-copy", 
 // placed at every per-record step of a GC pass: afterwards (and after a restart) every key
 // holds its last acknowledged write; a read during GC returns the acknowledged value.
 func VH_C05_T3_gc_vs_client() {
-	s := newScen(512, false, "ka", "kb")
+	s := newScen(512, false, "ka", "kb", "kc")
 	s.setS("ka")
 	s.setS("kb") // file0
 	s.setS("ka")
-	s.setS("kb") // file1: newest ka, kb
-	s.setS("kb") // file2 = head
+	s.setS("kb") // file1: newest ka@0, kb@256
+	// head (file2): empty or holding one record, so that the client's new record can land at the
+	// same offset its old record has in the source file
+	s.setS("kc")
+	if vrt.Tier() > 0 && vrt.Bool("head-holds-two") {
+		s.setS("kc")
+		s.setS("kc") // rotates: head = file3 with one record
+	}
 	s.flush()
 	point := gcPoints[vrt.Choice("point", len(gcPoints))]
 	occ := vrt.Choice("occurrence", 3)
 	op := vrt.Choice("client-op", 3)
+	ckey := []string{"ka", "kb"}[vrt.Choice("client-key", 2)]
 	known := (point == "gc:before-copy" || point == "gc:after-copy" || point == "gc:before-repoint") && op != 2
 	client := func() {
 		switch op {
 		case 0:
-			s.setS("ka")
+			s.setS(ckey)
 		case 1:
-			s.del("ka")
+			s.del(ckey)
 		case 2:
-			s.check("ka", "read-during-gc")
+			s.check(ckey, "read-during-gc")
 		}
 	}
 	done := atPoint(point, occ, client)
@@ -234,6 +241,58 @@ func VH_C04_T1_op_inside_op() {
 		vrt.Assume(done())
 	}
 	s.checkAll("after")
+	s.reopen(vrt.Choice("rm", 2) * 7)
+	s.checkAll("after-restart")
+	s.close()
+}
+
+// C04-T1b: two writers on one key: writer B is started while writer A is inside its write
+// (control point set:after-append: record appended, tree not yet updated); B must queue behind A:
+// both writes get distinct, ordered versions and the key ends with the later write.
+func VH_C04_T1_two_writers() {
+	s := newScen(512, false, "ka", "kb")
+	s.setS("ka")
+	old := s.model["ka"].ver
+	bBody := vrt.Bytes("v.b", 1)
+	bDelete := vrt.Bool("b-deletes")
+	bdone := make(chan struct{}, 1)
+	started := false
+	VerifHook = func(p string) {
+		if p != "set:after-append" || started {
+			return
+		}
+		started = true
+		go func() {
+			ki := NewKeyInfoFromBytes([]byte("ka"), 0, false)
+			if bDelete {
+				s.st.Set(ki, GetPayloadForDelete())
+			} else {
+				p := &Payload{Meta: Meta{TS: 1}}
+				p.Body = append([]byte{}, bBody...)
+				cmem.DBRL.SetData.AddSizeAndCount(p.CArray.Cap)
+				s.st.Set(ki, p)
+			}
+			bdone <- struct{}{}
+		}()
+		vrt.Drain() // engine: B runs until it blocks on the bucket lock
+		sleepMs(30) // native: give B time to reach the lock
+	}
+	aBody := vrt.Bytes("v.a", 1)
+	s.setRaw("ka", aBody, 0) // writer A (acknowledged first)
+	<-bdone
+	VerifHook = nil
+	vrt.Assert("second-writer-ran", started)
+	// model: A then B
+	m := s.model["ka"]
+	vrt.Assert("a-got-the-next-version", m.ver == old+1)
+	if bDelete {
+		m.ver = -(m.ver + 1)
+		m.body = nil
+	} else {
+		m.ver = m.ver + 1
+		m.body, m.flag = bBody, 0
+	}
+	s.checkAll("after-both-writers")
 	s.reopen(vrt.Choice("rm", 2) * 7)
 	s.checkAll("after-restart")
 	s.close()
